@@ -237,7 +237,7 @@ def run(ctx):
             res = run_harness(ctx, binp, "corpus", {"VERIF_SCRIPT": ",".join(scripts)}, 300)
             judge(ctx, res, "corpus", corr_broken)
             ctx.corr["corpus_scripts"] = [os.path.relpath(s, ROOT) for s in scripts]
-        n = ctx.budget(40, 2400)
+        n = ctx.budget(32, 2400)
         res = run_harness(ctx, binp, "generated", {"VERIF_N": n, "VERIF_META_KMAX": ctx.budget(3, 5)},
                           ctx.budget(240, 2400))
         judge(ctx, res, "generated", corr_broken)
